@@ -264,6 +264,7 @@ func famConc(dir string, seed int64, tier string) {
 	runtime.GOMAXPROCS(runtime.NumCPU())
 	apiLateRegistration(rep, "C19")
 	apiTreeEditsStayPrivate(rep, "C19")
+	apiDeprecationRace(rep, 3000)
 	apiRegistrationRace(rep, 5000) // (the race detector slows the window down: the long replay runs in the plain build, family concplain)
 	rep.write(dir)
 }
@@ -278,6 +279,7 @@ func famConcPlain(dir string, seed int64, tier string) {
 		n = 1500000
 	}
 	apiRegistrationRace(rep, n)
+	apiDeprecationRace(rep, n/4)
 	rep.Cases = n
 	rep.Distinct = n
 	rep.Samples = append(rep.Samples, fmt.Sprintf("concplain: %d rounds", n))
